@@ -142,7 +142,10 @@ def main():
                                        'offline trace checkers'}],
         'checks': checks,
         'notes': 'All checks import dznpy from /repo/src (DZNPY_SRC overrides) and abort as inconclusive otherwise. '
-                 'Exit 0 held / 1 violated / 2 inconclusive.',
+                 'Exit 0 held / 1 violated / 2 inconclusive. Every other chunk of work items of every check is '
+                 'evaluated in a child interpreter with other surroundings (python -O, warnings as errors, ASCII '
+                 'locale, DEBUG logging, other cwd; vlib/surroundings.py; VERIF_NO_SURROUNDINGS=1 switches that off); '
+                 'VERIF_SEED selects the workload seed (default 0), VERIF_EVIDENCE_DIR redirects the evidence files.',
         'not_applicable': na,
     }
     with open(os.path.join(HERE, 'MANIFEST.json'), 'w', encoding='utf-8') as fh:
